@@ -2,7 +2,7 @@
 import vcheck, re
 
 PID = "C01"
-MODULES = ["BeffVerif.Props.C01", "BeffVerif.Props.C01Frag"]
+MODULES = ["BeffVerif.Props.C01", "BeffVerif.Props.C01Frag", "BeffVerif.Props.Consts"]
 AUDIT = "BeffVerif/Audit/C01.lean"
 HYP = {"NoNumberKey": "D21", "IntersectionsOfObjects": "D22"}
 BITS = re.compile(r'\((\w+) "([01TF?]*)"\)')
@@ -78,7 +78,7 @@ def run(chk):
         ["C01_main (validate (print (lower t)) v = ⟦t⟧ᵀˢ v) is not proved end-to-end; proved: printer-level invisibility lemmas and reference-level facts (Props/C01.lean); "
          "the chain is otherwise decided by the 3-way correspondence",
          "full-strength statement is false for number-keyed records (D21) and intersections with non-object members (D22): hypotheses NoNumberKey, IntersectionsOfObjects"],
-        RULE)
+        RULE, translators=("client_consts.py",))
 
 def replay(chk, path):
     chk.build_rust(); chk.build_js(); chk.build_lean(MODULES)
